@@ -50,6 +50,7 @@ def run(tier, seed):
     # 3. implementation traces
     exe = vc.build_driver("drv_params")
     runs = [("alg", ["--mode", "alg", "--k", 3 if quick else 4, "--n", 150 if quick else 3000]),
+            ("cross", ["--mode", "cross", "--k", 2 if quick else 3]),
             ("param", ["--mode", "param", "--n", 250 if quick else 5000]),
             ("prec", ["--mode", "prec", "--n", 80 if quick else 1500])]
     for name, args in runs:
@@ -63,11 +64,13 @@ def run(tier, seed):
         os.remove(tr)
     ck.exhaustive = True
     ck.rule = ("every interval and pair of intervals on a %d-point grid with every code as test value (isCorrect, includes, "
-               "isEmpty, getLimit, getAcceptedLimit, operator&, operator&=, readDescription); random pools of 3-8 reals "
+               "isEmpty, getLimit, getAcceptedLimit, operator&, operator&=, readDescription); every interval x initial value x "
+               "request x new constraint on a %d-point grid through the constructor / setValue / setConstraint of plain and "
+               "auto-correcting parameters; random pools of 3-8 reals "
                "(|x|<=1e3, 0 and 1 frequent); random histories (8-30 calls) of construct / copy / conversion / assign / "
                "setValue / setConstraint / removeConstraint / setPrecision on plain and auto-correcting parameters and "
                "through lists and owning objects, values at, next to and outside the bounds, calls that raise included; "
-               "non-trivial = scenario with at least one state-changing call" % (3 if quick else 4))
+               "non-trivial = scenario with at least one state-changing call" % (3 if quick else 4, 2 if quick else 3))
     ck.distinct = ck.traces
     ck.assumptions = ["TLC; CommunityModules Json", "E1: only the order type of {bounds, values} matters for the calls exercised",
                       "harness/drv_params.cpp projection uses public const queries only; objects are kept alive so identities are never reused",
